@@ -100,22 +100,192 @@ DIGIT_POOL = ['0', '1', '2', '7', '10', '42', '100']
 DECIMAL_POOL = ['0.5', '1.0', '2.25', '10.01', '0.0']
 
 
-class Sampler:
-	"""Random derivations from a real `Rules` object. Terminals: string terminals are emitted literally, every regexp
-	terminal samples from a pool that is validated against the real `re.fullmatch` and the keyword exclusion."""
+# --- an INDEPENDENT reading of a .lark grammar text (no tranp code involved): the sentence sampler and the C12 fixed-point
+#     oracle must not depend on the rule loader they are testing.
+#     node = ('sym', name) | ('str', text) | ('rx', regexp) | ('seq', [node…]) | ('alt', [node…]) | ('opt', node) | ('rep', node, '*'|'+'|'?'|None)
 
-	def __init__(self, rules: Any, rng: random.Random, max_depth: int, opt_prob: dict[str, float] | None = None, base_opt: float = 0.35) -> None:
-		from rogw.tranp.implements.syntax.tranp.rule import Comps, Pattern, Patterns
-		self.rules = rules
+
+class LarkSyntaxError(Exception):
+	pass
+
+
+def lark_tokens(text: str) -> list[tuple[str, str]]:
+	"""(kind, text) tokens of a meta-grammar text: sym, str, rx, op ('[', ']', '(', ')', '|', ':=', '*', '+', '?'), nl."""
+	out: list[tuple[str, str]] = []
+	i, n = 0, len(text)
+	while i < n:
+		c = text[i]
+		if c == '\n':
+			out.append(('nl', c))
+			i += 1
+		elif c in ' \t\r\f':
+			i += 1
+		elif text.startswith('//', i):
+			while i < n and text[i] != '\n':
+				i += 1
+		elif c in '"/':
+			j = i + 1
+			while j < n and text[j] != c:
+				j += 2 if text[j] == '\\' else 1
+			if j >= n:
+				raise LarkSyntaxError(f'unterminated {c} at {i}')
+			out.append(('str' if c == '"' else 'rx', text[i + 1:j]))
+			i = j + 1
+		elif text.startswith(':=', i):
+			out.append(('op', ':='))
+			i += 2
+		elif c in '[]()|*+?':
+			out.append(('op', c))
+			i += 1
+		elif c.isalpha() or c == '_':
+			j = i
+			while j < n and (text[j].isalnum() or text[j] == '_'):
+				j += 1
+			out.append(('sym', text[i:j]))
+			i = j
+		elif c.isdigit():
+			out.append(('sym', c))
+			i += 1
+		else:
+			raise LarkSyntaxError(f'unexpected character {c!r} at {i}')
+	return out
+
+
+SPACE_CODES = {'\\t': '\t', '\\f': '\f', '\\r': '\r', '\\n': '\n'}
+
+
+def read_lark(text: str) -> dict[str, tuple[str, Any]]:
+	"""symbol -> (unwrap marker '' | '1' | '*', node), in file order."""
+	toks = lark_tokens(text)
+	pos = [0]
+
+	def peek() -> tuple[str, str]:
+		return toks[pos[0]] if pos[0] < len(toks) else ('eof', '')
+
+	def take(kind: str, val: str | None = None) -> str:
+		k, v = peek()
+		if k != kind or (val is not None and v != val):
+			raise LarkSyntaxError(f'expected {kind} {val or ""} at token {pos[0]}, got {k} {v!r}')
+		pos[0] += 1
+		return v
+
+	def term() -> Any:
+		k, v = peek()
+		if k == 'sym':
+			pos[0] += 1
+			return ('sym', v)
+		if k == 'str':
+			pos[0] += 1
+			return ('str', SPACE_CODES.get(v, v))
+		if k == 'rx':
+			pos[0] += 1
+			return ('rx', v)
+		if (k, v) == ('op', '['):
+			pos[0] += 1
+			e = alt()
+			take('op', ']')
+			return ('opt', e)
+		if (k, v) == ('op', '('):
+			pos[0] += 1
+			e = alt()
+			take('op', ')')
+			k2, v2 = peek()
+			if k2 == 'op' and v2 in '*+?':
+				pos[0] += 1
+				return ('rep', e, v2)
+			return ('rep', e, None)
+		raise LarkSyntaxError(f'term expected at token {pos[0]}, got {k} {v!r}')
+
+	def seq() -> Any:
+		items = [term()]
+		while peek()[0] in ('sym', 'str', 'rx') or peek() in (('op', '['), ('op', '(')):
+			items.append(term())
+		return items[0] if len(items) == 1 else ('seq', items)
+
+	def alt() -> Any:
+		alts = [seq()]
+		while peek() == ('op', '|'):
+			pos[0] += 1
+			alts.append(seq())
+		return alts[0] if len(alts) == 1 else ('alt', alts)
+
+	rules: dict[str, tuple[str, Any]] = {}
+	while peek()[0] != 'eof':
+		if peek()[0] == 'nl':
+			pos[0] += 1
+			continue
+		name = take('sym')
+		unwrap = ''
+		if peek() == ('op', '['):
+			pos[0] += 1
+			k, v = peek()
+			if (k, v) not in (('sym', '1'), ('op', '*')):
+				raise LarkSyntaxError(f'unwrap marker expected after {name}[')
+			pos[0] += 1
+			unwrap = v
+			take('op', ']')
+		take('op', ':=')
+		rules[name] = (unwrap, alt())
+		if peek()[0] != 'eof':
+			take('nl')
+	return rules
+
+
+def lark_show(rules: dict[str, tuple[str, Any]]) -> str:
+	"""The independent reading in the `rules_show` format (what Rules.from_ast of the compiled grammar must equal)."""
+	def show(n: Any) -> str:
+		k = n[0]
+		if k == 'sym':
+			return f'p:{hx(n[1])}:S:N'
+		if k == 'str':
+			return f'p:{hx(n[1])}:T:E'
+		if k == 'rx':
+			return f'p:{hx(n[1])}:T:R'
+		if k == 'seq':
+			return '( G:and:off' + ''.join(' ' + show(e) for e in n[1]) + ' )'
+		if k == 'alt':
+			return '( G:or:off' + ''.join(' ' + show(e) for e in n[1]) + ' )'
+		if k == 'opt':
+			return f'( G:and:[] {show(n[1])} )'
+		return f"( G:and:{n[2] or 'off'} {show(n[1])} )"
+	return ';'.join(f"{hx(name + (f'[{u}]' if u else ''))}={show(node)}" for name, (u, node) in rules.items())
+
+
+def lark_terminals(rules: dict[str, tuple[str, Any]]) -> tuple[list[str], list[str]]:
+	strings: list[str] = []
+	regexps: list[str] = []
+
+	def walk(n: Any) -> None:
+		if n[0] == 'str' and n[1] not in strings:
+			strings.append(n[1])
+		elif n[0] == 'rx' and n[1] not in regexps:
+			regexps.append(n[1])
+		elif n[0] in ('seq', 'alt'):
+			for e in n[1]:
+				walk(e)
+		elif n[0] in ('opt', 'rep'):
+			walk(n[1])
+
+	for _, node in rules.values():
+		walk(node)
+	return strings, regexps
+
+
+class Sampler:
+	"""Random derivations from an independently read grammar (`read_lark`). String terminals are emitted literally, every
+	regexp terminal samples from a pool validated with `re.fullmatch` and against the grammar's keyword (terminal) list."""
+
+	def __init__(self, grammar: dict[str, tuple[str, Any]], rng: random.Random, max_depth: int, opt_prob: dict[str, float] | None = None, base_opt: float = 0.35) -> None:
+		self.g = {k: v[1] for k, v in grammar.items()}
 		self.rng = rng
 		self.max_depth = max_depth
 		self.opt_prob = opt_prob or {}
 		self.base_opt = base_opt
-		self.Pattern, self.Patterns, self.Comps = Pattern, Patterns, Comps
-		self.keywords = set(rules.keywords)
+		strings, regexps = lark_terminals(grammar)
+		self.keywords = set(strings) | set(regexps)
 		self.pools: dict[str, list[str]] = {}
 		candidates = NAME_POOL + STRING_POOL + DIGIT_POOL + DECIMAL_POOL + ['True', 'False', '<', '>', '==', '<=', '>=', '!=', '+', '-', '*', '/', '%', '**', '?', '1']
-		for rx in gen_rules.regexps_of(rules):
+		for rx in regexps:
 			pool = [s for s in candidates if re.fullmatch(rx, s) and s not in self.keywords]
 			if rx == '[a-zA-Z_]\\w*':
 				pool = [s for s in pool if s not in PY_KEYWORDS]
@@ -125,82 +295,79 @@ class Sampler:
 		self.height: dict[str, int] = {}
 		self.budget = 40
 		self.or_bias = 1.0
-		self._compute_heights()
-
-	# minimal derivation height per symbol (fixpoint), used to steer towards termination near the depth limit
-	def _compute_heights(self) -> None:
 		INF = 10 ** 6
-		syms = list(self.rules.keys())
-		h = {s: INF for s in syms}
+		h = {s: INF for s in self.g}
 		changed = True
 		while changed:
 			changed = False
-			for s in syms:
-				v = 1 + self._h(self.rules[s], h)
-				if v < h[s]:
-					h[s] = v
+			for s2 in self.g:
+				v = 1 + self._h(self.g[s2], h)
+				if v < h[s2]:
+					h[s2] = v
 					changed = True
 		self.height = h
 
-	def _h(self, p: Any, h: dict[str, int]) -> int:
-		from rogw.tranp.implements.syntax.tranp.rule import Operators, Repeators, Roles
-		if isinstance(p, self.Pattern):
-			return 0 if p.role == Roles.Terminal else h.get(p.expression, 10 ** 6)
-		if p.rep in (Repeators.OverZero, Repeators.OneOrZero, Repeators.OneOrEmpty):
+	def _h(self, n: Any, h: dict[str, int]) -> int:
+		k = n[0]
+		if k == 'sym':
+			return h.get(n[1], 10 ** 6)
+		if k in ('str', 'rx'):
 			return 0
-		vals = [self._h(e, h) for e in p.entries]
-		return min(vals) if p.op == Operators.Or else max(vals, default=0)
+		if k == 'opt' or (k == 'rep' and n[2] in ('*', '?')):
+			return 0
+		if k == 'rep':
+			return self._h(n[1], h)
+		vals = [self._h(e, h) for e in n[1]]
+		return min(vals) if k == 'alt' else max(vals, default=0)
 
 	def derive(self, symbol: str, depth: int = 0, budget: int | None = None) -> list[str]:
 		"""Random derivation of `symbol`. `budget` (soft token budget) is reset when given."""
 		if budget is not None:
 			self.budget = budget
-		return self._pat(self.rules[symbol], depth + 1, symbol)
+		return self._node(self.g[symbol], depth + 1, symbol)
 
-	def _pat(self, p: Any, depth: int, owner: str) -> list[str]:
-		from rogw.tranp.implements.syntax.tranp.rule import Operators, Repeators, Roles
+	def _node(self, n: Any, depth: int, owner: str) -> list[str]:
 		rng = self.rng
 		room = self.max_depth - depth
 		broke = self.budget <= 0
-		if isinstance(p, self.Pattern):
-			if p.role == Roles.Symbol:
-				return self.derive(p.expression, depth)
+		k = n[0]
+		if k == 'sym':
+			return self.derive(n[1], depth)
+		if k == 'str':
 			self.budget -= 1
-			if p.comp == self.Comps.Equals:
-				return [p.expression]
-			return [rng.choice(self.pools[p.expression])]
-		if p.rep != Repeators.NoRepeat:
-			body = self.Patterns(p.entries, p.op)
-			need = self._h(body, self.height)
+			return [n[1]]
+		if k == 'rx':
+			self.budget -= 1
+			return [rng.choice(self.pools[n[1]])]
+		if k in ('opt', 'rep'):
+			body = n[1]
+			kind = '[]' if k == 'opt' else n[2]
+			if kind is None:
+				return self._node(body, depth, owner)
 			prob = self.opt_prob.get(owner, self.base_opt)
-			if need >= room or broke:
+			if self._h(body, self.height) >= room or broke:
 				prob = 0.0
-			if p.rep in (Repeators.OneOrZero, Repeators.OneOrEmpty):
-				n = 1 if rng.random() < prob else 0
-			elif p.rep == Repeators.OverZero:
-				n = 0
-				while n < 3 and rng.random() < prob:
-					n += 1
+			if kind in ('?', '[]'):
+				cnt = 1 if rng.random() < prob else 0
 			else:
-				n = 1
-				while n < 3 and rng.random() < prob:
-					n += 1
+				cnt = 0 if kind == '*' else 1
+				while cnt < 3 and rng.random() < prob:
+					cnt += 1
 			out: list[str] = []
-			for _ in range(n):
-				out.extend(self._pat(body, depth, owner))
+			for _ in range(cnt):
+				out.extend(self._node(body, depth, owner))
 			return out
-		if p.op == Operators.Or:
-			hs = [self._h(e, self.height) for e in p.entries]
+		if k == 'alt':
+			hs = [self._h(e, self.height) for e in n[1]]
 			if broke or min(hs) >= room:
 				best = min(hs)
-				ok = [e for e, h in zip(p.entries, hs) if h == best]
-				return self._pat(rng.choice(ok), depth, owner)
-			cand = [(e, h) for e, h in zip(p.entries, hs) if h < room]
+				return self._node(rng.choice([e for e, h in zip(n[1], hs) if h == best]), depth, owner)
+			cand = [(e, h) for e, h in zip(n[1], hs) if h < room]
 			weights = [1.0 / (1 + h) ** self.or_bias for _, h in cand]
-			return self._pat(rng.choices([e for e, _ in cand], weights=weights)[0], depth, owner)
+			return self._node(rng.choices([e for e, _ in cand], weights=weights)[0], depth, owner)
 		out = []
-		for e in p.entries:
-			out.extend(self._pat(e, depth, owner))
+		for e in n[1]:
+			out.extend(self._node(e, depth, owner))
 		return out
 
 
@@ -289,7 +456,7 @@ def mutate_tokens(tokens: list[str], rng: random.Random, vocabulary: list[str]) 
 # random rule sets as tuple trees (C12 streams, C11 `engine-random` stream)
 
 
-STRING_TERMINALS = ['"a"', '"b"', '"+"', '"("', '")"', '"["', '"]"', '"if"', '":="', '"|"', '"*"', '"?"', '"\\n"', '"\\t"', '"a b"', '"x.y"', '"/"', '"//"', '"1"', '"\\INDENT"', '"\\\\"', '"\'"', '"#"', '"="', '"/a/"', '"[a]"', '"(a)"', '"/"', '"a/"', '"]"', '"[["']
+STRING_TERMINALS = ['"a"', '"b"', '"+"', '"("', '")"', '"["', '"]"', '"if"', '":="', '"|"', '"*"', '"?"', '"\\n"', '"\\t"', '"a b"', '"x.y"', '"/"', '"//"', '"1"', '"\\INDENT"', '"\\\\"', '"\'"', '"#"', '"="', '"key\tvalue"', '"a\nb"', '"\tx"', '"x\r"', '"a\fb"', '"a \t"', '"/a/"', '"[a]"', '"(a)"', '"/"', '"a/"', '"]"', '"[["']
 REGEXP_TERMINALS = ['/a/', '/[a-z]+/', '/\\d+/', '/[+-]/', '/x|y/', '/[\\/]/', '/a b/', '/"q"/', '/[*+?]/', '/\\w+/', '/[ab]c/', '/(a)*/', '/[|]/', '/\\[\\]/',
 	# bodies that begin / end with an escaped slash, a bracket or a quote (boundary characters of the printed form)
 	'/a\\//', '/\\//', '/<\\//', '/\\/a/', '/\\/\\//', '/[a]/', '/(a)/', '/"/', '/a"/']
